@@ -11,7 +11,7 @@ SIM = "real anemo Networks on an in-memory datagram fabric under tokio's virtual
 CHECKS = {
  "C01": ("exploration",
    "runtime monitor: forged-certificate corpus through the real verifiers + adversary endpoint vs. ground-truth address registry",
-   "Verifier level: replayed, re-signed, key-planted (the other party's complete SubjectPublicKeyInfo byte for byte in serial number, a name attribute and an extension), expired, CA, ECDSA, truncated, garbage and every-offset single-byte-mutated certificates through the three real verifiers with handshake signatures by both keys; oracle: accepted certificate AND accepted signature by key K implies attributed PeerId = pub(K). End to end: an adversary endpoint holding only key Y dials / is dialed by real Networks with ten hostile identities while honest RPCs carry other parties' ids in every encoding; every PeerId attributed in handlers, responses, events and dial results must equal the ground-truth owner of the remote fabric address. One scenario in three re-uses an ip:port for a second honest identity after the first has shut down (ground truth by instant).",
+   "Verifier level: replayed, re-signed, key-planted (the other party's complete SubjectPublicKeyInfo byte for byte in serial number, a name attribute and an extension), expired, CA, ECDSA, truncated, garbage and every-offset single-byte-mutated certificates through the three real verifiers with handshake signatures by both keys (plus the right key's signature, zeros and nothing under eleven foreign scheme labels and junk under Ed25519, at the TLS 1.3 and 1.2 entry points); oracle: accepted certificate AND accepted signature by key K implies attributed PeerId = pub(K). End to end: an adversary endpoint holding only key Y dials / is dialed by real Networks with ten hostile identities while honest RPCs carry other parties' ids in every encoding; every PeerId attributed in handlers, responses, events and dial results must equal the ground-truth owner of the remote fabric address. One scenario in three re-uses an ip:port for a second honest identity after the first has shut down (ground truth by instant).",
    "Ed25519/TLS1.3 strength assumed; adversary limited to rustls' public traits + DER splicing (no malformed TLS records).",
    "DESIGN.md §4 C01", "E1 simnet + E3 component"),
  "C02": ("exploration",
@@ -95,8 +95,8 @@ CHECKS = {
    "Only identifier-shaped definitions; Attributes not varied.",
    "DESIGN.md §4 C17", "E4 codegen"),
  "C18": ("exploration",
-   "runtime monitor: atomic per-peer gauge inside the wrapped service under a multi-threaded workload",
-   "InflightLimitLayer (limit 1..64, both modes) around a gauged service on a 4-worker runtime; tasks share clones and issue requests that finish, fail or are cancelled at random poll counts; the gauge's fetch_add return value is the observation (<= limit); refused requests never touch it; fresh-peer rounds fire all tasks at a brand-new peer at once; at quiescence gauges are 0 and a hand-polled probe (logical steps, no clock) fills each peer with exactly `limit` never-finishing requests.",
+   "runtime monitor: atomic per-peer gauge inside the wrapped service under a multi-threaded workload + hand-polled admission probes on logical steps",
+   "InflightLimitLayer (limit 1..64, both modes) around a gauged service on a 4-worker runtime; first a hand-polled sequential phase (no clock) in which one peer's requests end in every possible way and the next one must be admitted at once; tasks share clones and issue requests that finish, fail or are cancelled at random poll counts; the gauge's fetch_add return value is the observation (<= limit); refused requests never touch it; fresh-peer rounds fire all tasks at a brand-new peer at once; at quiescence gauges are 0 and a hand-polled probe (logical steps, no clock) fills each peer with exactly `limit` never-finishing requests.",
    "Interleavings are those a 4-worker runtime produces.",
    "DESIGN.md §4 C18", "E3 component"),
  "C19": ("exploration",
